@@ -1763,4 +1763,24 @@ theorem idxOf_append_self (l : List Ptr) (x : Ptr) (h : x ∉ l) : (l ++ [x]).id
       have : (y == x) = false := by simpa using hy
       simp [this, ih ht]
 
+theorem idxOf_append_right (q l : List Ptr) (x : Ptr) (h : x ∉ q) : (q ++ l).idxOf x = q.length + l.idxOf x := by
+  induction q with
+  | nil => simp
+  | cons y t ih =>
+      have hy : ¬ y = x := fun e => h (by simp [e])
+      have ht : x ∉ t := fun e => h (by simp [e])
+      have : (y == x) = false := by simpa using hy
+      simp only [List.cons_append, List.idxOf_cons, List.length_cons, this, cond_false, ih ht]
+      omega
+
+theorem take_append_len (q l : List Ptr) (k : Nat) : (q ++ l).take (q.length + k) = q ++ l.take k := by
+  induction q with
+  | nil => simp
+  | cons y t ih => simp only [List.cons_append, List.length_cons]; rw [show t.length + 1 + k = (t.length + k) + 1 by omega]; simp [ih]
+
+theorem drop_append_len (q l : List Ptr) (k : Nat) : (q ++ l).drop (q.length + k) = l.drop k := by
+  induction q with
+  | nil => simp
+  | cons y t ih => simp only [List.cons_append, List.length_cons]; rw [show t.length + 1 + k = (t.length + k) + 1 by omega]; simp [ih]
+
 end Cocls.SP
